@@ -69,8 +69,12 @@ def generate(rng: random.Random, cons: dict) -> dict:
         fshape = (rng.randint(4, 6), rng.randint(12, 14), rng.randint(12, 14))
     else:
         fshape = (rng.randint(3, 4), rng.randint(5, 6), rng.randint(5, 6))
-    scale_kind = rng.choice(["none", "ones", "aniso"])
+    scale_kind = rng.choice(["none", "ones", "aniso", "aniso_t"])
     scale = None if scale_kind == "none" else ([1.0] * ndim if scale_kind == "ones" else [1.0, 2.0, 0.5, 1.5][:ndim])
+    if scale_kind == "aniso_t":
+        # the scale covers the time axis too: a frame interval other than 1 is legal (and
+        # must not leak into anything that uses the frame index)
+        scale = [rng.choice([0.5, 2.0, 5.0]), *scale[1:]]
     dtype = rng.choice(["int32", "int32", "uint16", "uint64", "int64"])
     if big and dtype == "uint16":
         dtype = "int32"
